@@ -114,7 +114,9 @@ def renew_vs(positions, block, atom_to_idx):
     positions
       the positions with new vs coordinates
     """
-    vs_types = ["virtual_sitesn", "virtual_sites2", "virtual_sites3", "virtual_sites4"]
+    # a virtual site can be constructed from other virtual sites; as in
+    # GROMACS the sites are built type by type with the n-type last
+    vs_types = ["virtual_sites2", "virtual_sites3", "virtual_sites4", "virtual_sitesn"]
     for vs_type in vs_types:
         interactions = block.interactions.get(vs_type, [])
         for virtual_site in interactions:
